@@ -307,7 +307,7 @@ func run(c *core.Ctx) {
 		}
 	}
 	leaves := []any{nil, false, int64(-7), 1.5, "", "ab", "a b"}
-	gens.Trees(c.Pick(4, 5), leaves, []string{"k", "b b", "c"}, tree("trees", false))
+	gens.Trees(c.Pick(4, 5), leaves, []string{"k", "b b", "c"}, tree("trees", !c.Quick()))
 	gens.Chains([]any{nil, "", int64(1), "x"}, tree("chains", true))
 	gens.Tables(c.Quick(), !c.Quick(), tree("tables", true))
 }
